@@ -73,6 +73,9 @@ def run_config(rep, impl, cfg, opts, world, vcs, tags=(), kill=False):
     prj = project.TempProject("MAJOR.MINOR.PATCH", "1.2.3", files={"a.txt": ["ver = {version}"]}, commit=commit, tag=tag, push=push,
                               vcs=vcs if has_vcs else None, vcs_cfg=vcs_cfg if has_vcs else None, hooks=hooks, git_file=git_file,
                               tag_message="" if tagmsg_empty else "tag {new_version}")
+    # every third configuration names its hooks on the command line (--pre-commit-hook / --post-commit-hook) instead of in the config file
+    via_cli = bool(hooks) and hash((cfg, opts, world, "cli")) % 3 == 0
+    prj.hooks_via_cli = via_cli
     with prj:
         if not has_vcs:
             os.makedirs(prj.fakedir, exist_ok=True)
@@ -91,6 +94,10 @@ def run_config(rep, impl, cfg, opts, world, vcs, tags=(), kill=False):
         args.append("--fetch" if fetch else "--no-fetch")
         if ignore:
             args.append("--ignore-vcs-tag")
+        if via_cli:
+            for which in ("pre", "post"):
+                if which in hooks:
+                    args += ["--%s-commit-hook" % which, "%s_hook.sh" % which]
         code, out, logs, exc = prj.run(impl, args)
         after = prj.snapshot()
         trace, wrote_seen = (observe(prj, before_hash, vcs) if has_vcs else ([], False))
